@@ -10,6 +10,7 @@ cp $WT/patch.diff $D/patch.diff
 rm -rf $D/demo; mkdir -p $D/demo/src; cp $WT/demo/Cargo.toml $D/demo/; cp $WT/demo/src/main.rs $D/demo/src/
 cp $WT/meta.txt $D/meta.txt 2>/dev/null
 export CARGO_NET_OFFLINE=true
+export VERIF_DEV_SKIP_PROOF=${SEED_SKIP_PROOF:-0}
 cd $WT
 T=$(cargo test --offline 2>&1 | grep -E "^test result" | tr '\n' ' ')
 echo "tests-with-change: $T"
